@@ -77,6 +77,43 @@ func Pieces(data, body []byte) [][]int {
 	return out
 }
 
+// DownBody is version v (1, 2, ...) of the response body: every execution of the server application yields a new
+// representation, announced by ETag = [v].
+func DownBody(n, v int) []byte { return Body(n, byte(0x60+v)) }
+
+// PiecesV describes data as pieces <<position, a, b, version>> of the response bodies of versions 1..nver
+// (version 0, a = -1: bytes that belong to none of them).
+func PiecesV(data []byte, n, nver int) [][]int {
+	out := [][]int{}
+	pos := 0
+	for pos < len(data) {
+		bestV, best := 0, []int{pos, 0, 0}
+		for v := 1; v <= nver; v++ {
+			ps := Pieces(data[pos:], DownBody(n, v))
+			if len(ps) > 0 && ps[0][1] >= 0 && ps[0][2]-ps[0][1] > best[2]-best[1] {
+				bestV, best = v, []int{pos, ps[0][1], ps[0][2]}
+			}
+		}
+		if bestV == 0 {
+			out = append(out, []int{pos, -1, 0, 0})
+			pos++
+			continue
+		}
+		out = append(out, []int{best[0], best[1], best[2], bestV})
+		pos += best[2] - best[1]
+	}
+	return out
+}
+
+func etagOf(o message.Options) int {
+	for _, x := range o {
+		if x.ID == message.ETag && len(x.Value) == 1 {
+			return int(x.Value[0])
+		}
+	}
+	return 0
+}
+
 type Blk struct {
 	Szx  int  `json:"szx"` // -1: option absent
 	Num  int  `json:"num"`
@@ -93,6 +130,7 @@ type MsgRec struct {
 	Size2 int    `json:"size2"`
 	Pay   []int  `json:"pay"` // <<a, b>> of the sender's body (a = -1 if not locatable), <<0,0>> if empty
 	PLen  int    `json:"plen"`
+	Ver   int    `json:"ver"` // response: the representation it is taken from (ETag), else 0
 }
 
 type wireMsg struct {
@@ -116,7 +154,7 @@ func blkOf(o message.Options, id message.OptionID) Blk {
 	return Blk{int(szx), int(num), more}
 }
 
-func snapshot(m *pool.Message, dir string, upBody, downBody []byte) wireMsg {
+func snapshot(m *pool.Message, dir string, upBody []byte, downLen int) wireMsg {
 	w := wireMsg{code: m.Code(), tok: append([]byte(nil), m.Token()...), typ: m.Type()}
 	for _, o := range m.Options() {
 		w.opts = append(w.opts, message.Option{ID: o.ID, Value: append([]byte(nil), o.Value...)})
@@ -134,7 +172,8 @@ func snapshot(m *pool.Message, dir string, upBody, downBody []byte) wireMsg {
 	}
 	body := upBody
 	if dir == "s2c" {
-		body = downBody
+		r.Ver = etagOf(w.opts)
+		body = DownBody(downLen, r.Ver)
 	}
 	if len(w.body) > 0 {
 		ps := Pieces(w.body, body)
@@ -228,11 +267,11 @@ func RunLayer(p Params, acts []Act) LayerTrace {
 	onErr := func(error) { mu.Lock(); errs++; mu.Unlock() }
 	cli := blockwise.New(ccC, 3*time.Second, onErr, nil)
 	srv := blockwise.New(ccS, 3*time.Second, onErr, nil)
-	up, down := Body(p.L, 1), Body(p.L2, 2)
+	up := Body(p.L, 1)
 	tok := []byte{0x04, 0xC4}
 	var c2s, s2c, sent []wireMsg
 	emit := func(m *pool.Message, dir string) {
-		w := snapshot(m, dir, up, down)
+		w := snapshot(m, dir, up, p.L2)
 		mu.Lock()
 		if dir == "c2s" {
 			c2s = append(c2s, w)
@@ -248,7 +287,12 @@ func RunLayer(p Params, acts []Act) LayerTrace {
 	defer cancel()
 	delivery := func(m *pool.Message, body []byte) Delivery {
 		b, _ := m.ReadBody()
-		d := Delivery{Pieces: Pieces(b, body), Len: len(b), Opts: []int{}, CF: -1}
+		d := Delivery{Len: len(b), Opts: []int{}, CF: -1}
+		if body != nil {
+			d.Pieces = Pieces(b, body)
+		} else {
+			d.Pieces = PiecesV(b, p.L2, len(tr.App)) // a response body: pieces of the representations produced so far
+		}
 		for _, o := range m.Options() {
 			d.Opts = append(d.Opts, int(o.ID))
 		}
@@ -266,15 +310,16 @@ func RunLayer(p Params, acts []Act) LayerTrace {
 		}
 		mu.Lock()
 		tr.App = append(tr.App, delivery(r, up))
+		v := len(tr.App) // every execution produces a new representation
 		mu.Unlock()
 		code := codes.Content
 		if r.Code() == codes.POST || r.Code() == codes.PUT {
 			code = codes.Changed
 		}
-		_ = w.SetResponse(code, message.AppOctets, bytes.NewReader(down), message.Option{ID: message.MaxAge, Value: []byte{7}})
+		_ = w.SetResponse(code, message.AppOctets, bytes.NewReader(DownBody(p.L2, v)), message.Option{ID: message.MaxAge, Value: []byte{7}}, message.Option{ID: message.ETag, Value: []byte{byte(v)}})
 	}
 	clientNext := func(_ *responsewriter.ResponseWriter[*fakeCC], r *pool.Message) {
-		respCh <- snapshot(r, "s2c", up, down)
+		respCh <- snapshot(r, "s2c", up, p.L2)
 	}
 	handle := func(bw *blockwise.BlockWise[*fakeCC], cc *fakeCC, w wireMsg, szx, mms int, dirOut string, next func(*responsewriter.ResponseWriter[*fakeCC], *pool.Message)) {
 		defer func() {
@@ -330,7 +375,7 @@ func RunLayer(p Params, acts []Act) LayerTrace {
 			}
 			tr.Ret = "ok"
 			tr.RetCode = int(resp.Code())
-			tr.Got = append(tr.Got, delivery(resp, down))
+			tr.Got = append(tr.Got, delivery(resp, nil))
 		}()
 	}
 	qlen := func() (int, int) { mu.Lock(); defer mu.Unlock(); return len(c2s), len(s2c) }
@@ -392,6 +437,11 @@ func RunLayer(p Params, acts []Act) LayerTrace {
 			}
 		case "drop":
 			if _, ok := pop(a.D, false); ok {
+				tr.Applied[i], tr.Faulty = true, true
+			}
+		case "lose": // the server's buffers time out (transfer timeout 3 s)
+			if rcv, snd := srv.VerifSizes(); rcv+snd > 0 {
+				srv.CheckExpirations(time.Now().Add(4 * time.Second))
 				tr.Applied[i], tr.Faulty = true, true
 			}
 		case "replay":
